@@ -35,6 +35,9 @@ Rules are phrased over this canonical form so that behaviour-preserving respelli
  N27 `chain.from_iterable(map(F, XS))` -> `(m for c in XS for m in F(c))`;  N28 `list(<generator expression>)` -> the list comprehension
  N29 an annotated assignment inside a function `x: T = e` is `x = e`
  N31 `names = set(CHAIN)` that is only asked `x in names` is CHAIN for that purpose
+ N32 `if bool(e):` -> `if e:`;  N33 `t = E; X.a = t` ... reads of t -> `X.a = E` ... reads of X.a (store-to-load forwarding)
+ N34 `g = (x for x in XS if C)` iterated once by `for y in g: BODY` -> `for x in XS: if C: BODY`
+ N35 a flag that only records that the loop was left by break (`f = False; for ..: f = True; break` + `if A and not f: S`) -> for .. else: `if A: S`
  N18 a self-assignment `x = x` is dropped
  N6  `v = []` directly followed by `for t in xs: [if c:] v.append(e)` -> `v = [e for t in xs if c]`
 
@@ -155,6 +158,10 @@ class _Norm(ast.NodeTransformer):
 
     def visit_If(self, n: ast.If):
         self.generic_visit(n)
+        # N32: `if bool(e):` is `if e:`
+        while isinstance(n.test, ast.Call) and isinstance(n.test.func, ast.Name) and n.test.func.id == 'bool' and len(n.test.args) == 1 \
+                and not n.test.keywords:
+            n.test = n.test.args[0]
         # N0: platform probes that are constant on every supported interpreter (the same table the CFG folds)
         try:
             from .cfg import _FOLD_TRUE
@@ -235,6 +242,27 @@ class _Norm(ast.NodeTransformer):
         # N26: a list display that is only iterated over is a tuple display
         if isinstance(n.iter, ast.List):
             n.iter = ast.copy_location(ast.Tuple(n.iter.elts, ast.Load()), n.iter)
+        # N34 (direct form): `for y in (x for x in XS if C): BODY` -> `for x in XS: if C: BODY[y:=x]`
+        it = n.iter
+        if (isinstance(it, (ast.GeneratorExp, ast.ListComp)) and len(it.generators) == 1 and not it.generators[0].is_async
+                and isinstance(it.elt, ast.Name) and isinstance(it.generators[0].target, ast.Name)
+                and it.elt.id == it.generators[0].target.id and isinstance(n.target, ast.Name) and self.fn_stack):
+            g0 = it.generators[0]
+            xv, yv = g0.target.id, n.target.id
+            inside = {id(x) for x in ast.walk(it)}
+            fn = self.fn_stack[-1]
+            clash = xv != yv and any(isinstance(x, ast.Name) and x.id == xv and id(x) not in inside for x in ast.walk(fn))
+            if not clash:
+                body = n.body
+                if xv != yv:
+                    for b in body:
+                        for x in [x for x in ast.walk(b) if isinstance(x, ast.Name) and x.id == yv]:
+                            x.id = xv
+                if g0.ifs:
+                    cond = g0.ifs[0] if len(g0.ifs) == 1 else ast.BoolOp(ast.And(), list(g0.ifs))
+                    body = [ast.copy_location(ast.If(cond, body, []), n)]
+                g0.target.ctx = ast.Store()
+                return ast.copy_location(ast.For(g0.target, g0.iter, body, n.orelse, lineno=n.lineno), n)
         return n
 
     def visit_comprehension(self, n: ast.comprehension):
@@ -473,6 +501,70 @@ class _Norm(ast.NodeTransformer):
                         _replace(nx, loads[0], s.value)
                         i += 1
                         continue
+            # N34: a filtering generator bound to a name and iterated once: `g = (x for x in XS if C); for y in g: BODY`
+            #      -> `for x in XS: if C: BODY[y:=x]`
+            if (isinstance(s, ast.Assign) and len(s.targets) == 1 and isinstance(s.targets[0], ast.Name)
+                    and isinstance(s.value, (ast.GeneratorExp, ast.ListComp)) and len(s.value.generators) == 1
+                    and isinstance(nx, ast.For) and isinstance(nx.iter, ast.Name) and nx.iter.id == s.targets[0].id
+                    and isinstance(s.value.elt, ast.Name) and isinstance(s.value.generators[0].target, ast.Name)
+                    and s.value.elt.id == s.value.generators[0].target.id and isinstance(nx.target, ast.Name)
+                    and not _captured(fn, s.targets[0].id)):
+                import copy
+                gname = s.targets[0].id
+                uses = [n for n in ast.walk(fn) if isinstance(n, ast.Name) and n.id == gname]
+                g0 = s.value.generators[0]
+                xv, yv = g0.target.id, nx.target.id
+                inside = {id(n) for n in ast.walk(s.value)}
+                clash = xv != yv and any(isinstance(n, ast.Name) and n.id == xv and id(n) not in inside for n in ast.walk(fn))
+                if len(uses) == 2 and not clash and not g0.is_async:
+                    body = nx.body
+                    if xv != yv:
+                        for b in body:
+                            for n in [n for n in ast.walk(b) if isinstance(n, ast.Name) and n.id == yv]:
+                                n.id = xv
+                    if g0.ifs:
+                        cond = g0.ifs[0] if len(g0.ifs) == 1 else ast.BoolOp(ast.And(), list(g0.ifs))
+                        body = [ast.copy_location(ast.If(cond, body, []), nx)]
+                    g0.target.ctx = ast.Store()
+                    out.append(ast.copy_location(ast.For(g0.target, g0.iter, body, nx.orelse, lineno=nx.lineno), nx))
+                    i += 2
+                    continue
+            # N35: a flag that only records whether the loop was left by `break`: `f = False; for ..: ..; f = True; break`
+            #      + `if A and not f: S`  ->  for .. else: `if A: S`
+            nx2b = stmts[i + 2] if i + 2 < len(stmts) else None
+            if (isinstance(s, ast.Assign) and len(s.targets) == 1 and isinstance(s.targets[0], ast.Name)
+                    and isinstance(s.value, ast.Constant) and s.value.value is False and isinstance(nx, ast.For) and not nx.orelse
+                    and isinstance(nx2b, ast.If) and not nx2b.orelse and not _captured(fn, s.targets[0].id)):
+                if self._flag_to_for_else(fn, s, nx, nx2b):
+                    out.append(nx)
+                    i += 3
+                    continue
+            # N33: store-to-load forwarding through a temporary: `t = E; X.a = t` ... reads of t  ->  `X.a = E` ... reads of X.a
+            if (isinstance(s, ast.Assign) and len(s.targets) == 1 and isinstance(s.targets[0], ast.Name) and isinstance(nx, ast.Assign)
+                    and len(nx.targets) == 1 and isinstance(nx.targets[0], ast.Attribute) and _is_chain(nx.targets[0])
+                    and isinstance(nx.value, ast.Name) and nx.value.id == s.targets[0].id and not _captured(fn, s.targets[0].id)):
+                import copy
+                t = s.targets[0].id
+                tgt = nx.targets[0]
+                tgt_txt = ast.unparse(tgt)
+                stores_t = [n for n in ast.walk(fn) if isinstance(n, ast.Name) and n.id == t and not isinstance(n.ctx, ast.Load)]
+                other_attr_stores = [n for n in ast.walk(fn) if isinstance(n, ast.Attribute) and isinstance(n.ctx, (ast.Store, ast.Del))
+                                     and n is not tgt and n.attr == tgt.attr and ast.unparse(n) == tgt_txt]
+                base_names = {n.id for n in ast.walk(tgt) if isinstance(n, ast.Name)}
+                later = stmts[i + 2:]
+                in_later = {id(n) for x in later for n in ast.walk(x)}
+                loads = [n for n in ast.walk(fn) if isinstance(n, ast.Name) and n.id == t and isinstance(n.ctx, ast.Load) and n is not nx.value]
+                rebinds = any(isinstance(n, ast.Name) and n.id in base_names and not isinstance(n.ctx, ast.Load) for x in later for n in ast.walk(x))
+                if len(stores_t) == 1 and not other_attr_stores and not rebinds and all(id(n) in in_later for n in loads):
+                    for n in loads:
+                        new = copy.deepcopy(tgt)
+                        for x in ast.walk(new):
+                            if hasattr(x, 'ctx'):
+                                x.ctx = ast.Load()
+                        _replace(fn, n, ast.copy_location(new, n))
+                    out.append(ast.copy_location(ast.Assign([tgt], s.value, lineno=s.lineno), nx))
+                    i += 2
+                    continue
             # N23: a default that is conditionally overridden before its only use: `v = A; if C: ..; v = B; S(v)` -> the default is
             # written into the arms that do not override it (N15 then sinks S)
             nx2 = stmts[i + 2] if i + 2 < len(stmts) else None
@@ -621,6 +713,60 @@ class _Norm(ast.NodeTransformer):
                 for h in getattr(s, 'handlers', []) or []:
                     _Norm._search_loops(fn, h.body, False)
             i += 1
+
+    @staticmethod
+    def _flag_to_for_else(fn, s: ast.Assign, loop: ast.For, after: ast.If) -> bool:
+        f = s.targets[0].id
+        names = [n for n in ast.walk(fn) if isinstance(n, ast.Name) and n.id == f]
+        stores = [n for n in names if not isinstance(n.ctx, ast.Load)]
+        loads = [n for n in names if isinstance(n.ctx, ast.Load)]
+        # the test after the loop: `not f` or `A and not f` (any position)
+        t = after.test
+        parts = list(t.values) if isinstance(t, ast.BoolOp) and isinstance(t.op, ast.And) else [t]
+        notf = [p for p in parts if isinstance(p, ast.UnaryOp) and isinstance(p.op, ast.Not) and isinstance(p.operand, ast.Name) and p.operand.id == f]
+        if len(notf) != 1 or len(loads) != 1 or loads[0] is not notf[0].operand:
+            return False
+        # inside the loop: every `f = True` is directly followed by break; every break of this loop is directly preceded by `f = True`
+        sets, breaks = [], []
+
+        def scan(block, in_inner_loop):
+            for k, st in enumerate(block):
+                if isinstance(st, ast.Assign) and len(st.targets) == 1 and isinstance(st.targets[0], ast.Name) and st.targets[0].id == f:
+                    if not (isinstance(st.value, ast.Constant) and st.value.value is True):
+                        return False
+                    # flag set, then (after anything that cannot leave the block) the block ends in break
+                    if in_inner_loop or not isinstance(block[-1], ast.Break):
+                        return False
+                    sets.append(st)
+                if isinstance(st, ast.Break) and not in_inner_loop:
+                    breaks.append((block, st))
+                if isinstance(st, (ast.Return, ast.Raise)):
+                    pass
+                for fld in ('body', 'orelse', 'finalbody'):
+                    v = getattr(st, fld, None)
+                    if isinstance(v, list) and v and isinstance(v[0], ast.stmt):
+                        if not scan(v, in_inner_loop or isinstance(st, (ast.For, ast.While))):
+                            return False
+                for h in getattr(st, 'handlers', []) or []:
+                    if not scan(h.body, in_inner_loop):
+                        return False
+            return True
+        if not scan(loop.body, False) or not sets or len(stores) != len(sets) + 1:
+            return False
+        for block, b in breaks:
+            if not any(any(x is st for x in block) for st in sets):
+                return False
+        for st in sets:
+            for block, b in breaks:
+                if any(x is st for x in block):
+                    block.remove(st)
+        rest = [p for p in parts if p is not notf[0]]
+        if rest:
+            cond = rest[0] if len(rest) == 1 else ast.copy_location(ast.BoolOp(ast.And(), rest), t)
+            loop.orelse = [ast.copy_location(ast.If(cond, after.body, []), after)]
+        else:
+            loop.orelse = list(after.body)
+        return True
 
     @staticmethod
     def _default_into_arms(fn, s: ast.Assign, cond: ast.If, use: ast.stmt) -> bool:
